@@ -52,7 +52,15 @@ fn collide_texts(case: &Value) -> Vec<String> {
     let k2 = case["k2"].as_str().unwrap_or("-");
     let r = &case["ref"];
     let written = format!("{}{}", if r["global"] == true { "::" } else { "" }, strs(&r["segs"]).join("::"));
-    let user = format!("module {}\nstruct UseIt {{ f: {written} }}\n", strs(&r["scope"]).join("::"));
+    // the user names the colliding definition where a definition of its kind can stand: an interface as a base interface,
+    // everything else as the type of a field
+    let last = strs(&r["segs"]).last().cloned().unwrap_or_default();
+    let names_the_definition = (arr == "membermod" && last == "T") || (arr != "membermod" && last == "B");
+    let user = if k1 == "interface" && names_the_definition {
+        format!("module {}\ninterface UseIt : {written} {{ extra() }}\n", strs(&r["scope"]).join("::"))
+    } else {
+        format!("module {}\nstruct UseIt {{ f: {written} }}\n", strs(&r["scope"]).join("::"))
+    };
     match arr {
         "membermod" => {
             let container = match k2 {
